@@ -305,19 +305,16 @@ theorem mem_tmpPaths_of_dep {t : Target} {d : DepDecl} {dep : TSpec} {p : Str}
   exact ⟨dep, ⟨hm, by simp [ht]⟩, hp⟩
 
 /-- The path `fileDestination` computes for a dependency's output in a build command is the path
-    `BuildLabel.Paths` gives `IterSources` (package *directory* vs package *name*: they differ only for the
-    root package, where `Join(".", out) = Join("", out)`). -/
-theorem fileDestination_mem_paths (dep : TSpec) (out : Str) (ho : out ∈ dep.outs)
-    (hne : out ≠ []) (habs : hasPrefix out ['/'] = false) :
+    `BuildLabel.Paths` gives `IterSources`: both join the output to the package *directory* ("." for the root
+    package). -/
+theorem fileDestination_mem_paths (dep : TSpec) (out : Str) (ho : out ∈ dep.outs) :
     fileDestination false dep out false false false ∈ dep.paths := by
   simp only [fileDestination, Bool.false_eq_true, ↓reduceIte, Bool.and_false, handleDir, TSpec.paths, List.mem_map]
-  refine ⟨out, ho, ?_⟩
-  by_cases hp : dep.label.pkg = []
-  · simp only [hp, ↓reduceIte]; exact pathJoin_dot out hne habs
-  · simp [hp]
+  exact ⟨out, ho, rfl⟩
 
-
-
+theorem pkgDir_ne_nil (d : TSpec) : d.pkgDir ≠ [] := by
+  unfold TSpec.pkgDir
+  split <;> simp_all
 
 /-! ### the regex pass: fuel, and commands that consist of a single sequence -/
 
